@@ -135,21 +135,25 @@ theorem findKind_mem (names : List String) (cols : List Arr) (n : String) (t : T
       · cases h; simp
       · exact List.mem_cons_of_mem _ (ih ds h)
 
+/-- the per-field step of `merge_with_schema` with the recursive call abstracted -/
+def wsHead (cellf : Ty → Arr → Arr → Res Arr) (lnulls : Option Nulls) (ln : List String) (lc : List Arr)
+    (rnulls : Option Nulls) (rn : List String) (rc : List Arr) (nt : String × Ty) : Res (Option (String × Arr)) :=
+  match findKind ln lc nt.1 nt.2, findKind rn rc nt.1 nt.2 with
+  | none, none => .ok none
+  | none, some rc => .ok (some (nt.1, adjust rc rnulls))
+  | some lc, none => .ok (some (nt.1, adjust lc lnulls))
+  | some lc, some rc =>
+    match cellf nt.2 (adjust lc lnulls) (adjust rc rnulls) with
+    | .err e => .err e
+    | .ok c => .ok (some (nt.1, c))
+
 /-- the body of `mergeWS (fuel+1)` on two structs with the recursive call abstracted -/
 def mergeWSBody (cellf : Ty → Arr → Arr → Res Arr) (llen : Nat) (lnulls : Option Nulls) (lnames : List String)
     (lcols : List Arr) (rlen : Nat) (rnulls : Option Nulls) (rnames : List String) (rcols : List Arr)
     (fnames : List String) (ftys : List Ty) : Res Arr :=
   if llen ≠ rlen then .err "panic"
   else
-    match seqRes ((fnames.zip ftys).map (fun nt =>
-        match findKind lnames lcols nt.1 nt.2, findKind rnames rcols nt.1 nt.2 with
-        | none, none => .ok none
-        | none, some rc => .ok (some (nt.1, adjust rc rnulls))
-        | some lc, none => .ok (some (nt.1, adjust lc lnulls))
-        | some lc, some rc =>
-          match cellf nt.2 (adjust lc lnulls) (adjust rc rnulls) with
-          | .err e => .err e
-          | .ok c => .ok (some (nt.1, c)))) with
+    match seqRes ((fnames.zip ftys).map (wsHead cellf lnulls lnames lcols rnulls rnames rcols)) with
     | .err e => .err e
     | .ok ncs =>
       if lensOk (ncs.map (·.2)) llen then
@@ -183,7 +187,7 @@ theorem mergeWS_succ (f : Nat) (llen : Nat) (lnulls : Option Nulls) (ln : List S
     (rlen : Nat) (rnulls : Option Nulls) (rn : List String) (rc : List Arr) (fn : List String) (ft : List Ty) :
     mergeWS (f + 1) (.struct llen lnulls ln lc) (.struct rlen rnulls rn rc) fn ft
       = mergeWSBody (mergeCell f) llen lnulls ln lc rlen rnulls rn rc fn ft := by
-  simp only [mergeWS, mergeWSBody]
+  simp only [mergeWS, mergeWSBody, wsHead]
   rfl
 
 theorem mergeCell_succ (f : Nat) (t : Ty) (l r : Arr) :
@@ -199,23 +203,9 @@ theorem mergeWSBody_congr (g1 g2 : Ty → Arr → Arr → Res Arr) (llen : Nat) 
     (h : ∀ c ∈ lc, ∀ t d, g1 t (adjust c lnulls) d = g2 t (adjust c lnulls) d) :
     mergeWSBody g1 llen lnulls ln lc rlen rnulls rn rc fn ft = mergeWSBody g2 llen lnulls ln lc rlen rnulls rn rc fn ft := by
   unfold mergeWSBody
-  have : ∀ nt ∈ fn.zip ft, (match findKind ln lc nt.1 nt.2, findKind rn rc nt.1 nt.2 with
-        | none, none => Res.ok none
-        | none, some rc => Res.ok (some (nt.1, adjust rc rnulls))
-        | some lc, none => Res.ok (some (nt.1, adjust lc lnulls))
-        | some lc, some rc =>
-          match g1 nt.2 (adjust lc lnulls) (adjust rc rnulls) with
-          | .err e => Res.err e
-          | .ok c => Res.ok (some (nt.1, c)))
-      = (match findKind ln lc nt.1 nt.2, findKind rn rc nt.1 nt.2 with
-        | none, none => Res.ok none
-        | none, some rc => Res.ok (some (nt.1, adjust rc rnulls))
-        | some lc, none => Res.ok (some (nt.1, adjust lc lnulls))
-        | some lc, some rc =>
-          match g2 nt.2 (adjust lc lnulls) (adjust rc rnulls) with
-          | .err e => Res.err e
-          | .ok c => Res.ok (some (nt.1, c))) := by
+  have : ∀ nt ∈ fn.zip ft, wsHead g1 lnulls ln lc rnulls rn rc nt = wsHead g2 lnulls ln lc rnulls rn rc nt := by
     intro nt _
+    unfold wsHead
     cases hl : findKind ln lc nt.1 nt.2 with
     | none => cases findKind rn rc nt.1 nt.2 <;> rfl
     | some c =>
